@@ -1,5 +1,505 @@
-use crate::Ctx;
+//! C05 - packet encoding and decoding are mutually inverse.
+//!
+//! Headers: exhaustive over all bit patterns / all in-range field tuples, canonical = as defined by
+//! doc/packet.md and doc/packet7.md (padding zero, duplicated 0.6 sequence bits consistent).
+//! Whole packets: generated `Packet` values of every kind, written and read back (true token mode).
 
-pub fn run(_ctx: &Ctx) {
-    // not built yet
+use crate::util::{hex, Warnings};
+use crate::{ensure, ensure_eq, Ctx, Outcome, PResult};
+use arrayvec::ArrayVec;
+use libtw2_common::bytes::{AsBytesExt, FromBytesExt};
+use libtw2_net::protocol as p6;
+use libtw2_net::protocol7 as p7;
+use proptest::prelude::*;
+use serde::{Deserialize, Serialize};
+use serde_json::json;
+
+// ---------------------------------------------------------------------------
+// Packet cases shared with C06
+
+#[derive(Clone, Debug, Hash, Serialize, Deserialize, PartialEq)]
+pub enum Ctrl {
+    KeepAlive,
+    Connect,
+    /// 0.6 ConnectAccept; 0.7 Token
+    ConnectAcceptOrToken,
+    Accept,
+    Close(Vec<u8>),
+}
+
+#[derive(Clone, Debug, Hash, Serialize, Deserialize, PartialEq)]
+pub enum Body {
+    /// arbitrary payload bytes with an arbitrary chunk count
+    Raw { num_chunks: u8, family: u8, len: u16, seed: u8 },
+    /// concatenation of well-formed chunks: (vital: Some((sequence, resend)), family, len, seed)
+    Chunks(Vec<(Option<(u16, bool)>, u8, u16, u8)>),
+}
+
+#[derive(Clone, Debug, Hash, Serialize, Deserialize, PartialEq)]
+pub enum PCase {
+    Connless { family: u8, len: u16, seed: u8, token: [u8; 4], response_token: [u8; 4] },
+    Control { ack: u16, token: Option<[u8; 4]>, ctrl: Ctrl, response_token: [u8; 4] },
+    Chunks { ack: u16, token: Option<[u8; 4]>, request_resend: bool, body: Body },
+}
+
+/// Five content families: zeros, one repeated byte, short period, text-like, pseudo-random.
+pub fn content(family: u8, len: usize, seed: u8) -> Vec<u8> {
+    let mut x = (seed as u32).wrapping_mul(2654435761).wrapping_add(12345);
+    (0..len)
+        .map(|i| match family % 5 {
+            0 => 0,
+            1 => seed,
+            2 => [seed, 0, seed ^ 0xff, 1][i % (1 + (seed as usize % 4))],
+            3 => b"the quick brown fox jumps over the lazy dog 0123456789"[(i + seed as usize) % 54],
+            _ => {
+                x ^= x << 13;
+                x ^= x >> 17;
+                x ^= x << 5;
+                x as u8
+            }
+        })
+        .collect()
+}
+
+pub fn token_strategy() -> BoxedStrategy<[u8; 4]> {
+    prop_oneof![
+        4 => any::<[u8; 4]>(),
+        1 => Just([0xff; 4]),
+        1 => Just([0; 4]),
+        1 => Just(*b"TKEN"),
+        1 => Just([0, 0, 0, 1]),
+    ]
+    .boxed()
+}
+
+fn ctrl_strategy() -> BoxedStrategy<Ctrl> {
+    let reason = prop_oneof![
+        2 => proptest::collection::vec(1u8..=255, 0..=127),
+        1 => proptest::collection::vec(32u8..127, 0..=127),
+        1 => Just(vec![]),
+        1 => (1u8..=255).prop_map(|b| vec![b; 127]),
+        1 => proptest::collection::vec(1u8..=255, 3..=3),
+        1 => proptest::collection::vec(prop_oneof![Just(0xffu8), Just(b'T'), 1u8..=255], 4..=8),
+    ];
+    prop_oneof![
+        1 => Just(Ctrl::KeepAlive),
+        1 => Just(Ctrl::Connect),
+        1 => Just(Ctrl::ConnectAcceptOrToken),
+        1 => Just(Ctrl::Accept),
+        3 => reason.prop_map(Ctrl::Close),
+    ]
+    .boxed()
+}
+
+fn body_strategy(max_payload: usize, max_chunk: usize) -> BoxedStrategy<Body> {
+    let max_payload = max_payload as u16;
+    let raw_len = prop_oneof![
+        3 => 0u16..64,
+        3 => 0u16..=max_payload,
+        2 => (0u16..4).prop_map(move |d| max_payload - d),
+    ];
+    let chunk_len = prop_oneof![4 => 0u16..40, 1 => 0u16..=(max_chunk.min(1023) as u16), 1 => prop_oneof![Just(15u16), Just(16), Just(17), Just(63), Just(64), Just(255), Just(256)]];
+    let chunk = (proptest::option::weighted(0.6, (0u16..1024, any::<bool>())), 0u8..5, chunk_len, any::<u8>());
+    prop_oneof![
+        2 => (any::<u8>(), 0u8..5, raw_len, any::<u8>()).prop_map(|(num_chunks, family, len, seed)| Body::Raw { num_chunks, family, len, seed }),
+        3 => proptest::collection::vec(chunk, 0..8).prop_map(Body::Chunks),
+    ]
+    .boxed()
+}
+
+pub fn pcase_strategy(is7: bool) -> BoxedStrategy<PCase> {
+    let ack = prop_oneof![3 => 0u16..1024, 1 => Just(0u16), 1 => Just(1023u16), 1 => Just(256u16), 1 => Just(255u16)];
+    let token = if is7 { token_strategy().prop_map(Some).boxed() } else { proptest::option::weighted(0.6, token_strategy()).boxed() };
+    let max_payload = if is7 { 1393 } else { 1393 };
+    let connless_len = prop_oneof![2 => 0u16..64, 2 => 0u16..=1390, 1 => (0u16..3).prop_map(|d| 1390 - d)];
+    prop_oneof![
+        1 => (0u8..5, connless_len, any::<u8>(), token_strategy(), token_strategy())
+            .prop_map(|(family, len, seed, token, response_token)| PCase::Connless { family, len, seed, token, response_token }),
+        3 => (ack.clone(), token.clone(), ctrl_strategy(), token_strategy())
+            .prop_map(|(ack, token, ctrl, response_token)| PCase::Control { ack, token, ctrl, response_token }),
+        6 => (ack, token, any::<bool>(), body_strategy(max_payload, if is7 { 1390 } else { 1023 }))
+            .prop_map(|(ack, token, request_resend, body)| PCase::Chunks { ack, token, request_resend, body }),
+    ]
+    .boxed()
+}
+
+/// The payload bytes and chunk count of a chunk body; chunks that do not fit `limit` are dropped.
+pub fn body_bytes(body: &Body, limit: usize, is7: bool) -> (u8, Vec<u8>, Vec<(Option<(u16, bool)>, Vec<u8>)>) {
+    match body {
+        Body::Raw { num_chunks, family, len, seed } => (*num_chunks, content(*family, (*len as usize).min(limit), *seed), Vec::new()),
+        Body::Chunks(list) => {
+            let mut buf: ArrayVec<[u8; 2048]> = ArrayVec::new();
+            let mut out = Vec::new();
+            let mut n = 0u8;
+            for (vital, family, len, seed) in list {
+                let data = content(*family, *len as usize, *seed);
+                let hdr = if vital.is_some() { 3 } else { 2 };
+                if buf.len() + hdr + data.len() > limit {
+                    continue;
+                }
+                let r = if is7 { p7::write_chunk(&data, *vital, &mut buf).map(|_| ()) } else { p6::write_chunk(&data, *vital, &mut buf).map(|_| ()) };
+                r.expect("chunk fits the scratch buffer");
+                out.push((*vital, data));
+                n += 1;
+            }
+            (n, buf.to_vec(), out)
+        }
+    }
+}
+
+/// Renders a parsed 0.6 packet into a comparable structure.
+#[derive(Debug, PartialEq, Clone)]
+pub enum Seen {
+    Connless(Vec<u8>, Option<([u8; 4], [u8; 4])>),
+    Control { ack: u16, token: Option<[u8; 4]>, ctrl: Ctrl, response_token: Option<[u8; 4]> },
+    Chunks { ack: u16, token: Option<[u8; 4]>, request_resend: bool, num_chunks: u8, payload: Vec<u8> },
+}
+
+pub fn seen6(p: &p6::Packet) -> Seen {
+    match *p {
+        p6::Packet::Connless(d) => Seen::Connless(d.to_vec(), None),
+        p6::Packet::Connected(c) => {
+            let token = c.token.map(|t| t.0);
+            match c.type_ {
+                p6::ConnectedPacketType::Chunks(rr, n, d) => Seen::Chunks { ack: c.ack, token, request_resend: rr, num_chunks: n, payload: d.to_vec() },
+                p6::ConnectedPacketType::Control(ctrl) => Seen::Control {
+                    ack: c.ack,
+                    token,
+                    response_token: None,
+                    ctrl: match ctrl {
+                        p6::ControlPacket::KeepAlive => Ctrl::KeepAlive,
+                        p6::ControlPacket::Connect => Ctrl::Connect,
+                        p6::ControlPacket::ConnectAccept => Ctrl::ConnectAcceptOrToken,
+                        p6::ControlPacket::Accept => Ctrl::Accept,
+                        p6::ControlPacket::Close(r) => Ctrl::Close(r.to_vec()),
+                    },
+                },
+            }
+        }
+    }
+}
+
+pub fn seen7(p: &p7::Packet) -> Seen {
+    match *p {
+        p7::Packet::Connless(c) => Seen::Connless(c.payload.to_vec(), Some((c.token.0, c.response_token.0))),
+        p7::Packet::Connected(c) => {
+            let token = Some(c.token.0);
+            match c.type_ {
+                p7::ConnectedPacketType::Chunks(rr, n, d) => Seen::Chunks { ack: c.ack, token, request_resend: rr, num_chunks: n, payload: d.to_vec() },
+                p7::ConnectedPacketType::Control(ctrl) => {
+                    let (ctrl, rt) = match ctrl {
+                        p7::ControlPacket::KeepAlive => (Ctrl::KeepAlive, None),
+                        p7::ControlPacket::Connect(t) => (Ctrl::Connect, Some(t.0)),
+                        p7::ControlPacket::Token(t) => (Ctrl::ConnectAcceptOrToken, Some(t.0)),
+                        p7::ControlPacket::Accept => (Ctrl::Accept, None),
+                        p7::ControlPacket::Close(r) => (Ctrl::Close(r.to_vec()), None),
+                    };
+                    Seen::Control { ack: c.ack, token, ctrl, response_token: rt }
+                }
+            }
+        }
+    }
+}
+
+/// Writes the case with the library writer. Returns (bytes, expected view, chunk list).
+pub fn write_case(c: &PCase, is7: bool) -> Result<(Vec<u8>, Seen, Vec<(Option<(u16, bool)>, Vec<u8>)>), String> {
+    let mut out = [0u8; 2048];
+    if is7 {
+        use p7::*;
+        match c {
+            PCase::Connless { family, len, seed, token, response_token } => {
+                let payload = content(*family, *len as usize, *seed);
+                let p = Packet::Connless(ConnlessPacket { payload: &payload, token: Token(*token), response_token: Token(*response_token) });
+                let w = p.write(&mut out[..]).map_err(|e| format!("0.7 connless write failed: {:?}", e))?;
+                Ok((w.to_vec(), Seen::Connless(payload.clone(), Some((*token, *response_token))), vec![]))
+            }
+            PCase::Control { ack, token, ctrl, response_token } => {
+                let token = token.unwrap_or([0xff; 4]);
+                // writer precondition (asserted): response tokens are never the all-ones value
+                let rt = if *response_token == [0xff; 4] { [0xfe; 4] } else { *response_token };
+                let cp = match ctrl {
+                    Ctrl::KeepAlive => ControlPacket::KeepAlive,
+                    Ctrl::Connect => ControlPacket::Connect(Token(rt)),
+                    Ctrl::ConnectAcceptOrToken => ControlPacket::Token(Token(rt)),
+                    Ctrl::Accept => ControlPacket::Accept,
+                    Ctrl::Close(r) => ControlPacket::Close(r),
+                };
+                let p = Packet::Connected(ConnectedPacket { ack: *ack, token: Token(token), type_: ConnectedPacketType::Control(cp) });
+                let w = p.write(&mut out[..]).map_err(|e| format!("0.7 control write failed: {:?}", e))?;
+                let rt_seen = match ctrl {
+                    Ctrl::Connect | Ctrl::ConnectAcceptOrToken => Some(rt),
+                    _ => None,
+                };
+                Ok((w.to_vec(), Seen::Control { ack: *ack, token: Some(token), ctrl: ctrl.clone(), response_token: rt_seen }, vec![]))
+            }
+            PCase::Chunks { ack, token, request_resend, body } => {
+                let token = token.unwrap_or([0xff; 4]);
+                let (n, payload, chunks) = body_bytes(body, 1393, true);
+                let p = Packet::Connected(ConnectedPacket { ack: *ack, token: Token(token), type_: ConnectedPacketType::Chunks(*request_resend, n, &payload) });
+                let w = p.write(&mut out[..]).map_err(|e| format!("0.7 chunks write failed: {:?}", e))?;
+                Ok((w.to_vec(), Seen::Chunks { ack: *ack, token: Some(token), request_resend: *request_resend, num_chunks: n, payload }, chunks))
+            }
+        }
+    } else {
+        use p6::*;
+        match c {
+            PCase::Connless { family, len, seed, .. } => {
+                let payload = content(*family, *len as usize, *seed);
+                let w = Packet::Connless(&payload).write(&mut out[..]).map_err(|e| format!("0.6 connless write failed: {:?}", e))?;
+                Ok((w.to_vec(), Seen::Connless(payload.clone(), None), vec![]))
+            }
+            PCase::Control { ack, token, ctrl, .. } => {
+                let cp = match ctrl {
+                    Ctrl::KeepAlive => ControlPacket::KeepAlive,
+                    Ctrl::Connect => ControlPacket::Connect,
+                    Ctrl::ConnectAcceptOrToken => ControlPacket::ConnectAccept,
+                    Ctrl::Accept => ControlPacket::Accept,
+                    Ctrl::Close(r) => ControlPacket::Close(r),
+                };
+                let p = Packet::Connected(ConnectedPacket { ack: *ack, token: token.map(Token), type_: ConnectedPacketType::Control(cp) });
+                let w = p.write(&mut out[..]).map_err(|e| format!("0.6 control write failed: {:?}", e))?;
+                Ok((w.to_vec(), Seen::Control { ack: *ack, token: *token, ctrl: ctrl.clone(), response_token: None }, vec![]))
+            }
+            PCase::Chunks { ack, token, request_resend, body } => {
+                let limit = if token.is_some() { 1393 } else { 1397 };
+                let (n, payload, chunks) = body_bytes(body, limit, false);
+                let p = Packet::Connected(ConnectedPacket { ack: *ack, token: token.map(Token), type_: ConnectedPacketType::Chunks(*request_resend, n, &payload) });
+                let w = p.write(&mut out[..]).map_err(|e| format!("0.6 chunks write failed: {:?}", e))?;
+                Ok((w.to_vec(), Seen::Chunks { ack: *ack, token: *token, request_resend: *request_resend, num_chunks: n, payload }, chunks))
+            }
+        }
+    }
+}
+
+fn check_packet(c: &PCase, is7: bool) -> PResult {
+    let (bytes, expect, chunks) = write_case(c, is7)?;
+    ensure!(bytes.len() <= 1400, "written packet has {} bytes", bytes.len());
+    let mut scratch = [0u8; 2048];
+    let mut w = Warnings::new();
+    let got = if is7 {
+        let p = p7::Packet::read(&mut w, &bytes, &mut scratch[..]).map_err(|e| format!("0.7: reading back the written packet fails: {:?} [{}]", e, hex(&bytes[..bytes.len().min(40)])))?;
+        seen7(&p)
+    } else {
+        let has_token = match &expect {
+            Seen::Connless(..) => false,
+            Seen::Control { token, .. } | Seen::Chunks { token, .. } => token.is_some(),
+        };
+        let p = p6::Packet::read(&mut w, &bytes, Some(has_token), &mut scratch[..]).map_err(|e| format!("0.6: reading back the written packet (token hint {}) fails: {:?} [{}]", has_token, e, hex(&bytes[..bytes.len().min(40)])))?;
+        seen6(&p)
+    };
+    if got != expect {
+        return Err(format!("read(write(p)) != p:\n wrote {:?}\n read  {:?}\n bytes [{}..]", short(&expect), short(&got), hex(&bytes[..bytes.len().min(48)])));
+    }
+    // the only warning permitted: a chunk packet that really has no chunks and no resend request
+    let allowed_nochunks = matches!(&expect, Seen::Chunks { num_chunks: 0, request_resend: false, .. });
+    let unexpected: Vec<&String> = w.0.iter().filter(|x| !(allowed_nochunks && x.as_str() == "ChunksNoChunks")).collect();
+    ensure!(unexpected.is_empty(), "reading back a written packet warns {:?}: {:?} [{}..]", unexpected, short(&expect), hex(&bytes[..bytes.len().min(48)]));
+    // re-iterate the chunks
+    let mut nchunks = 0;
+    if let Seen::Chunks { num_chunks, payload, .. } = &got {
+        if !chunks.is_empty() || matches!(c, PCase::Chunks { body: Body::Chunks(_), .. }) {
+            let mut cw = Warnings::new();
+            let mut seen: Vec<(Option<(u16, bool)>, Vec<u8>)> = Vec::new();
+            if is7 {
+                let mut it = p7::ChunksIter::new(payload, *num_chunks);
+                while let Some(ch) = it.next_warn(&mut cw) {
+                    seen.push((ch.vital, ch.data.to_vec()));
+                }
+            } else {
+                let mut it = p6::ChunksIter::new(payload, *num_chunks);
+                while let Some(ch) = it.next_warn(&mut cw) {
+                    seen.push((ch.vital, ch.data.to_vec()));
+                }
+            }
+            ensure_eq!(seen, chunks, "chunks re-iterated from the read-back packet");
+            ensure!(cw.is_empty(), "iterating the chunks of a well-formed packet warns {:?}", cw.0);
+            nchunks = seen.len();
+        }
+    }
+    let compressed = if is7 { bytes[0] & 0b0001_0000 != 0 && bytes[0] & 0b0010_0000 == 0 } else { bytes[0] & 0x80 != 0 && bytes[0] & 0x20 == 0 };
+    let kind = match &expect {
+        Seen::Connless(..) => "connless",
+        Seen::Control { ctrl: Ctrl::Close(r), .. } if !r.is_empty() => "close_with_reason",
+        Seen::Control { .. } => "control",
+        Seen::Chunks { .. } => "chunks",
+    };
+    let nontrivial = compressed || nchunks >= 2 || kind == "close_with_reason";
+    Ok(Outcome::nt(nontrivial)
+        .class(kind)
+        .class_if(compressed, "compressed")
+        .class_if(kind == "chunks" && !compressed, "chunks_uncompressed")
+        .class_if(nchunks >= 2, "two_plus_chunks")
+        .class_if(bytes.len() >= 1390, "near_max_size")
+        .class_if(matches!(&expect, Seen::Control { token: Some(_), .. } | Seen::Chunks { token: Some(_), .. }), "with_token")
+        .class_if(matches!(&expect, Seen::Control { token: None, .. } | Seen::Chunks { token: None, .. }), "without_token"))
+}
+
+fn short(s: &Seen) -> String {
+    let t = format!("{:?}", s);
+    if t.len() > 400 {
+        format!("{}...", &t[..400])
+    } else {
+        t
+    }
+}
+
+// ---------------------------------------------------------------------------
+// Headers
+
+fn hdr6_packet(i: u64) -> Result<bool, String> {
+    let b = [(i >> 16) as u8, (i >> 8) as u8, i as u8];
+    let canonical = b[0] & 0b0000_1100 == 0;
+    let mut w = Warnings::new();
+    let h = p6::PacketHeaderPacked::from_array(b).unpack_warn(&mut w);
+    if canonical {
+        ensure!(w.is_empty(), "0.6 packet header {} is canonical but unpack warns {:?}", hex(&b), w.0);
+        let back = *h.pack().as_byte_array();
+        ensure_eq!(back, b, "0.6 packet header pack(unpack(b)) for {}", hex(&b));
+        // in-range field tuple: flags 0..15, ack 0..1023, num_chunks 0..255 -> exactly the canonical patterns
+        let h2 = p6::PacketHeader { flags: b[0] >> 4, ack: (((b[0] & 3) as u16) << 8) | b[1] as u16, num_chunks: b[2] };
+        ensure_eq!(h2.pack().unpack(), h2, "0.6 packet header unpack(pack(h))");
+        ensure_eq!(h, h2, "0.6 packet header fields for {}", hex(&b));
+    }
+    Ok(canonical)
+}
+
+fn hdr6_chunk(i: u64) -> Result<bool, String> {
+    if i < 65536 {
+        let b = [(i >> 8) as u8, i as u8];
+        let canonical = b[1] & 0xf0 == 0;
+        let mut w = Warnings::new();
+        let h = p6::ChunkHeaderPacked::from_array(b).unpack_warn(&mut w);
+        if canonical {
+            ensure!(w.is_empty(), "0.6 chunk header {} canonical but warns {:?}", hex(&b), w.0);
+            let packed = h.pack();
+        ensure_eq!(*packed.as_byte_array(), b, "0.6 chunk header pack(unpack(b)) {}", hex(&b));
+            let h2 = p6::ChunkHeader { flags: b[0] >> 6, size: (((b[0] & 0x3f) as u16) << 4) | (b[1] & 0xf) as u16 };
+            ensure_eq!(h, h2, "0.6 chunk header fields {}", hex(&b));
+            ensure_eq!(h2.pack().unpack(), h2, "0.6 chunk header unpack(pack(h))");
+        }
+        Ok(canonical)
+    } else {
+        let i = i - 65536;
+        let b = [(i >> 16) as u8, (i >> 8) as u8, i as u8];
+        let canonical = (b[1] & 0x30) >> 4 == (b[2] & 0xc0) >> 6;
+        let mut w = Warnings::new();
+        let h = p6::ChunkHeaderVitalPacked::from_array(b).unpack_warn(&mut w);
+        if canonical {
+            ensure!(w.is_empty(), "0.6 vital chunk header {} canonical but warns {:?}", hex(&b), w.0);
+            let packed = h.pack();
+        ensure_eq!(*packed.as_byte_array(), b, "0.6 vital chunk header pack(unpack(b)) {}", hex(&b));
+            let h2 = p6::ChunkHeaderVital {
+                h: p6::ChunkHeader { flags: b[0] >> 6, size: (((b[0] & 0x3f) as u16) << 4) | (b[1] & 0xf) as u16 },
+                sequence: (((b[1] & 0xf0) as u16) << 2) | b[2] as u16,
+            };
+            ensure_eq!(h, h2, "0.6 vital chunk header fields {}", hex(&b));
+            ensure_eq!(h2.pack().unpack(), h2, "0.6 vital chunk header unpack(pack(h))");
+        }
+        Ok(canonical)
+    }
+}
+
+const TOKENS: [[u8; 4]; 8] = [[0; 4], [0xff; 4], [1, 2, 3, 4], [0x80, 0, 0, 0], [0, 0, 0, 1], [0xde, 0xad, 0xbe, 0xef], [0x7f, 0xff, 0xff, 0xff], [0x55, 0xaa, 0x55, 0xaa]];
+
+fn hdr7_packet(i: u64) -> Result<bool, String> {
+    let t = TOKENS[(i >> 24) as usize];
+    let b = [(i >> 16) as u8, (i >> 8) as u8, i as u8, t[0], t[1], t[2], t[3]];
+    let canonical = b[0] & 0xc0 == 0;
+    let mut w = Warnings::new();
+    let h = p7::PacketHeaderPacked::from_array(b).unpack_warn(&mut w);
+    if canonical {
+        ensure!(w.is_empty(), "0.7 packet header {} canonical but warns {:?}", hex(&b), w.0);
+        let packed = h.pack();
+        ensure_eq!(*packed.as_byte_array(), b, "0.7 packet header pack(unpack(b)) {}", hex(&b));
+        let h2 = p7::PacketHeader { flags: (b[0] >> 2) & 0xf, ack: (((b[0] & 3) as u16) << 8) | b[1] as u16, num_chunks: b[2], token: p7::Token(t) };
+        ensure_eq!(h, h2, "0.7 packet header fields {}", hex(&b));
+        ensure_eq!(h2.pack().unpack(), h2, "0.7 packet header unpack(pack(h))");
+    }
+    Ok(canonical)
+}
+
+fn hdr7_connless(i: u64) -> Result<bool, String> {
+    let t = TOKENS[((i >> 8) & 7) as usize];
+    let r = TOKENS[((i >> 11) & 7) as usize];
+    let b = [i as u8, t[0], t[1], t[2], t[3], r[0], r[1], r[2], r[3]];
+    let canonical = b[0] & 0xc0 == 0;
+    let mut w = Warnings::new();
+    let h = p7::PacketHeaderConnlessPacked::from_array(b).unpack_warn(&mut w);
+    if canonical {
+        ensure!(w.is_empty(), "0.7 connless header {} canonical but warns {:?}", hex(&b), w.0);
+        let packed = h.pack();
+        ensure_eq!(*packed.as_byte_array(), b, "0.7 connless header pack(unpack(b)) {}", hex(&b));
+        let h2 = p7::PacketHeaderConnless { flags: (b[0] >> 2) & 0xf, version: b[0] & 3, token: p7::Token(t), response_token: p7::Token(r) };
+        ensure_eq!(h, h2, "0.7 connless header fields {}", hex(&b));
+        ensure_eq!(h2.pack().unpack(), h2, "0.7 connless header unpack(pack(h))");
+    }
+    Ok(canonical)
+}
+
+fn hdr7_chunk(i: u64) -> Result<bool, String> {
+    if i < 65536 {
+        let b = [(i >> 8) as u8, i as u8];
+        let canonical = b[1] & 0xc0 == 0;
+        let mut w = Warnings::new();
+        let h = p7::ChunkHeaderPacked::from_array(b).unpack_warn(&mut w);
+        if canonical {
+            ensure!(w.is_empty(), "0.7 chunk header {} canonical but warns {:?}", hex(&b), w.0);
+            let packed = h.pack();
+        ensure_eq!(*packed.as_byte_array(), b, "0.7 chunk header pack(unpack(b)) {}", hex(&b));
+            let h2 = p7::ChunkHeader { flags: b[0] >> 6, size: (((b[0] & 0x3f) as u16) << 6) | (b[1] & 0x3f) as u16 };
+            ensure_eq!(h, h2, "0.7 chunk header fields {}", hex(&b));
+            ensure_eq!(h2.pack().unpack(), h2, "0.7 chunk header unpack(pack(h))");
+        }
+        Ok(canonical)
+    } else {
+        let i = i - 65536;
+        let b = [(i >> 16) as u8, (i >> 8) as u8, i as u8];
+        let mut w = Warnings::new();
+        let h = p7::ChunkHeaderVitalPacked::from_array(b).unpack_warn(&mut w);
+        ensure!(w.is_empty(), "0.7 vital chunk header {} (every pattern is canonical) warns {:?}", hex(&b), w.0);
+        let packed = h.pack();
+        ensure_eq!(*packed.as_byte_array(), b, "0.7 vital chunk header pack(unpack(b)) {}", hex(&b));
+        let h2 = p7::ChunkHeaderVital {
+            h: p7::ChunkHeader { flags: b[0] >> 6, size: (((b[0] & 0x3f) as u16) << 6) | (b[1] & 0x3f) as u16 },
+            sequence: (((b[1] & 0xc0) as u16) << 2) | b[2] as u16,
+        };
+        ensure_eq!(h, h2, "0.7 vital chunk header fields {}", hex(&b));
+        ensure_eq!(h2.pack().unpack(), h2, "0.7 vital chunk header unpack(pack(h))");
+        Ok(true)
+    }
+}
+
+/// every payload length for two content families: connless and single-chunk packets
+fn every_length(i: u64) -> Result<bool, String> {
+    let is7 = i & 1 == 1;
+    let family = if (i >> 1) & 1 == 1 { 4 } else { 0 };
+    let kind = (i >> 2) % 3;
+    let len = (i >> 2) / 3;
+    let c = match kind {
+        0 => PCase::Connless { family, len: len.min(1390) as u16, seed: len as u8, token: [1, 2, 3, 4], response_token: [5, 6, 7, 8] },
+        1 => PCase::Chunks { ack: (len % 1024) as u16, token: Some([9, 9, 9, len as u8]), request_resend: len % 2 == 0, body: Body::Raw { num_chunks: 1, family, len: len as u16, seed: len as u8 } },
+        _ => PCase::Chunks { ack: 0, token: None, request_resend: false, body: Body::Raw { num_chunks: 3, family, len: len as u16, seed: (len >> 3) as u8 } },
+    };
+    check_packet(&c, is7).map(|o| o.nontrivial)
+}
+
+pub fn run(ctx: &Ctx) {
+    ctx.set_rule(
+        "headers: every bit pattern enumerated (non-trivial = canonical per doc/packet.md / doc/packet7.md, where unpack must not warn and \
+         pack(unpack(b)) == b and the fields equal an independent decoding; canonical patterns are in bijection with the in-range field tuples, \
+         for which unpack(pack(h)) == h is checked too); packets: proptest-generated Packet values of every kind (connless, each control \
+         message x token x ack x close reason, chunk packets from well-formed chunk lists or raw payloads up to the size limit, five content \
+         families) written and read back with the true token mode; non-trivial = the written form is compressed, or >= 2 chunks, or a close \
+         reason >= 1 byte; distinct by case hash",
+    );
+    ctx.assume("only warning tolerated: ChunksNoChunks for a chunk packet that really has zero chunks and no resend request");
+    ctx.assume("writer preconditions respected: NUL-free close reasons <= 127 bytes, 0.7 response tokens != all-ones, payload within the packet size limit");
+    ctx.exhaustive("hdr6_packet", 1 << 24, hdr6_packet, |i| json!(format!("{:06x}", i)));
+    ctx.exhaustive("hdr6_chunk", 65536 + (1 << 24), hdr6_chunk, |i| json!(format!("{:06x}", i)));
+    ctx.exhaustive("hdr7_packet", 8 << 24, hdr7_packet, |i| json!(format!("{:07x}", i)));
+    ctx.exhaustive("hdr7_connless", 256 * 64, hdr7_connless, |i| json!(format!("{:04x}", i)));
+    ctx.exhaustive("hdr7_chunk", 65536 + (1 << 24), hdr7_chunk, |i| json!(format!("{:06x}", i)));
+    ctx.prop("packets/0.6", ctx.n(600_000, 12_000_000), || pcase_strategy(false), |c: &PCase| check_packet(c, false));
+    ctx.prop("packets/0.7", ctx.n(600_000, 12_000_000), || pcase_strategy(true), |c: &PCase| check_packet(c, true));
+    ctx.exhaustive("every_length", 1398 * 3 * 4, every_length, |i| json!({"is7": i & 1 == 1, "kind": (i >> 2) % 3, "len": (i >> 2) / 3}));
 }
